@@ -934,10 +934,8 @@ fn gen_query(r: &mut Rng) -> (String, bool, bool, Vec<String>) {
                 _ => format!("{}.{} * 2", x, g.nprop()),
             };
             if e.contains(' ') && g.joins {
-                // the engine's projection computes NULL + 1 as NULL on the first row and as 0 on later rows
-                // of a join's output (the same under every switch combination; reported to C11): the rows
-                // of such a query are not compared with the semantics
-                sem_ok = false;
+                // before dfd360c (C11-K11) the projection computed NULL + 1 as NULL on the first row and as 0
+                // on later rows of a join's output; compared with the semantics again since that repair
                 g.tags.push("computed-arith-above-join".into());
             }
             items.push(format!("{} AS {}", e, k));
@@ -1191,6 +1189,9 @@ fn corpus(out: &mut Out) {
         ("MATCH (a:A) WHERE a.v > 0 WITH a WHERE a.v < 3 RETURN a.v, a.u", false, true),
         ("MATCH (a:A)-[:R]->(b:B) WHERE b.v > 0 AND a.v = 0 RETURN a.u, b.u", false, true),
         ("MATCH (c:C) MATCH (a:A {v: 0})-[:R]->(b:B {v: 1}) WHERE a.u = 100 RETURN a.u, b.u, c.u", false, true),
+        // RETURN DISTINCT (a DistinctOperator on the projected rows since 36a1196)
+        ("MATCH (a:A) MATCH (b:B) WHERE a.v > 0 RETURN DISTINCT a.v", false, true),
+        ("MATCH (a:A)-[:R]->(b) RETURN DISTINCT b.v", false, true),
         // variable-length expands: pushed through unless the predicate mentions target / edge / path
         ("MATCH (a:A)-[:R*1..2]->(b) WHERE a.v = 0 RETURN a.u, b.u", false, true),
         ("MATCH (a:A)-[r:R*1..2]->(b) MATCH (c:C) WHERE a.v < 2 AND b.v > 0 RETURN a.u, b.u, c.u", false, true),
